@@ -94,6 +94,7 @@ impl GenState {
         match b {
             Block::Raw(v) => self.produced += v.len(),
             Block::Rle(_, n) => self.produced += *n as usize,
+            Block::Hostile(..) => {}
             Block::Compressed { lits, seqs, .. } => {
                 let l = lit_bytes(lits).len();
                 for s in seqs {
